@@ -493,9 +493,38 @@ def producer_sig(e: Any) -> str:
     return source_sig(e, 2)
 
 
+def producer_crate(e: Any) -> Optional[str]:
+    """crate of the function whose Result an expression is (through `?`-free adapters such as .map / .and_then)"""
+    e = H.strip(e)
+    for _ in range(6):
+        if not isinstance(e, dict):
+            return None
+        if e.get("k") == "mcall":
+            if str(e.get("def", "")).startswith(("core::result::Result", "core::option::Option")):
+                e = H.strip(e.get("recv"))
+                continue
+            return e.get("crate")
+        if e.get("k") == "call":
+            f_ = H.strip(e.get("f"))
+            return f_.get("crate") if isinstance(f_, dict) else None
+        if e.get("k") in ("ref", "deref", "block", "macro"):
+            e = H.strip(e.get("e") if e.get("k") != "block" else e.get("tail"))
+            continue
+        return None
+    return None
+
+
+FOREIGN_PROBE = "Result of a syn / proc-macro2 parsing API used as a probe (\"is this a literal / a list / a type?\"): its Err is not one of strum's diagnostics"
+
+
 def dropped_results(f: dict) -> List[Site]:
     out: List[Site] = []
     fn = f["path"]
+
+    def site(kind: str, producer: Any, at: str, text: str) -> Site:
+        cr = producer_crate(producer)
+        auto = FOREIGN_PROBE if (cr is not None and cr != "strum_macros") else None
+        return Site(fn, kind, producer_sig(producer), at, text, auto)
 
     def closure_converts(c: Any) -> bool:
         for n in H.walk(c):
@@ -515,25 +544,25 @@ def dropped_results(f: dict) -> List[Site]:
             if e["name"] == "unwrap_or_else" and e["args"] and closure_converts(e["args"][0]):
                 pass
             else:
-                out.append(Site(fn, "result." + e["name"], producer_sig(e["recv"]), e.get("at", ""), H.brief(e, 140)))
+                out.append(site("result." + e["name"], e["recv"], e.get("at", ""), H.brief(e, 140)))
         elif k in ("semi", "expr_stmt"):
             t = _expr_ty(e["e"])
             if is_syn_result(t):
-                out.append(Site(fn, "result-unused", producer_sig(e["e"]), (H.strip(e["e"]) or {}).get("at", ""), H.brief(e["e"], 140)))
+                out.append(site("result-unused", e["e"], (H.strip(e["e"]) or {}).get("at", ""), H.brief(e["e"], 140)))
         elif k == "let" and e.get("init") is not None and H.is_wild(e["pat"]) and e["pat"].get("k") == "wild":
             if is_syn_result(_expr_ty(e["init"])):
-                out.append(Site(fn, "result-let-underscore", producer_sig(e["init"]), "", H.brief(e["init"], 140)))
+                out.append(site("result-let-underscore", e["init"], "", H.brief(e["init"], 140)))
         elif k == "let_expr":
             t = _expr_ty(e["init"])
             if is_syn_result(t):
                 p = e["pat"]
                 if p.get("k") == "ptuple_struct" and p["path"].get("variant") == "Ok":
-                    out.append(Site(fn, "result-if-let-ok", producer_sig(e["init"]), (H.strip(e["init"]) or {}).get("at", ""), H.brief(e["init"], 140)))
+                    out.append(site("result-if-let-ok", e["init"], (H.strip(e["init"]) or {}).get("at", ""), H.brief(e["init"], 140)))
         elif k == "match" and e.get("src") == "Normal" and is_syn_result(e.get("scrut_ty")):
             for a in e["arms"]:
                 p = a["pat"]
                 if p.get("k") == "ptuple_struct" and p["path"].get("variant") == "Err" and all(H.is_wild(x) and x.get("k") == "wild" for x in p["pats"]):
-                    out.append(Site(fn, "result-match-err-ignored", producer_sig(e["scrut"]), "", H.brief(e["scrut"], 140)))
+                    out.append(site("result-match-err-ignored", e["scrut"], "", H.brief(e["scrut"], 140)))
         for key, v in e.items():
             if key in ("ty", "at", "base_ty"):
                 continue
